@@ -38,6 +38,8 @@ typedef struct {
 	_Atomic uint64_t merged_sum, merged_or, delivered_sum, delivered_or, last_delivered;
 	_Atomic int sentinel_seen;
 	_Atomic int far;
+	int share;                  // fd sources: 1 + id of the (earlier) source whose monitored descriptor this one shares, 0 = own descriptor
+	int shared;                 // some other source monitors the same descriptor
 	_Atomic int epoch;          // bumped (and woken) after every event-handler invocation and after a cancel issued from the registration handler
 	_Atomic long bytes_written, bytes_read;
 } src_t;
@@ -141,10 +143,10 @@ static void registration_handler(int sid) {
 }
 static void cancel_handler(int sid) {
 	src_t *s = &SRC[sid];
-	int mon = IS_FD(s->type) ? fd_monitored(s->fd_r) : -1;
+	int mon = (IS_FD(s->type) && !s->shared) ? fd_monitored(s->fd_r) : -1;      // (a shared descriptor stays monitored for the other source)
 	logev(EV_CANCELH, sid, mon, (int64_t)(long)dispatch_get_specific(&TAGKEY));
 	logev(EV_VAL, sid, 5, dispatch_source_testcancel(s->ds));
-	if (IS_FD(s->type)) { close(s->fd_r); s->fd_r = -1; }     // closing here is what the API promises to be safe
+	if (IS_FD(s->type) && !s->shared) { close(s->fd_r); s->fd_r = -1; }     // closing here is what the API promises to be safe
 	atomic_fetch_add(&s->cancel_handler_runs, 1); fwake_all(&s->cancel_handler_runs);
 	logev(EV_CANCELH_END, sid, 0, 0);
 }
@@ -201,9 +203,10 @@ void exec_op(op_t *op) {
 		long n = op->b > 8192 ? 8192 : op->b;
 		logev(EV_CALL, op->id, (int32_t)op->a, n);
 		ssize_t w;
+		int pfd = s->share ? SRC[s->share - 1].fd_w : s->fd_w;        // the peer end belongs to the source that created the descriptor
 		if (s->type == T_SIGNAL) w = kill(getpid(), signo_of((int)op->a));        // peer action of a signal source: raise its signal
-		else if (s->type == T_WRITE) { char rb[8192]; w = s->fd_w >= 0 ? read(s->fd_w, rb, (size_t)(n < 512 ? 512 : n)) : -1; }     // ... of a write source: drain the pipe
-		else { w = s->fd_w >= 0 ? write(s->fd_w, buf, (size_t)n) : -1; if (w > 0) atomic_fetch_add(&s->bytes_written, w); }
+		else if (s->type == T_WRITE) { char rb[8192]; w = pfd >= 0 ? read(pfd, rb, (size_t)(n < 512 ? 512 : n)) : -1; }     // ... of a write source: drain the pipe
+		else { w = pfd >= 0 ? write(pfd, buf, (size_t)n) : -1; if (w > 0) atomic_fetch_add(&s->bytes_written, w); }
 		logev(EV_RET, op->id, (int32_t)op->a, w);
 		break; }
 	case K_SLEEP: { struct timespec ts = { op->a / 1000000, (op->a % 1000000) * 1000 }; nanosleep(&ts, 0); break; }
@@ -268,7 +271,7 @@ static int load_program(const char *path) {
 		else if (!strcmp(w, "src")) {
 			int id; src_t s = { 0 };
 			if (sscanf(rest, "%d %d %d %d %ld %ld %ld %ld %ld %ld %ld %ld %ld %d", &id, &s.type, &s.tq, &s.flags, &s.hwork, &s.cancel_at, &s.selfmerge, &s.settimer_at, &s.a, &s.b, &s.c, &s.na, &s.nb, &s.clock) < 11) return -3;
-			s.used = 1; s.fd_r = s.fd_w = -1; SRC[id] = s;
+			s.used = 1; s.fd_r = s.fd_w = -1; if (IS_FD(s.type)) { s.share = s.clock; s.clock = 0; } SRC[id] = s;
 		} else if (!strcmp(w, "op")) {
 			int id, cid; char kn[32]; long a = 0, b = 0, c = 0, d = 0, e = 0;
 			if (sscanf(rest, "%d %d %31s %ld %ld %ld %ld %ld", &id, &cid, kn, &a, &b, &c, &d, &e) < 3) return -4;
@@ -298,9 +301,17 @@ static int create_objects(void) {
 		case T_OR: s->ds = dispatch_source_create(DISPATCH_SOURCE_TYPE_DATA_OR, 0, 0, tq); break;
 		case T_REPLACE: s->ds = dispatch_source_create(DISPATCH_SOURCE_TYPE_DATA_REPLACE, 0, 0, tq); break;
 		case T_TIMER: s->ds = dispatch_source_create(DISPATCH_SOURCE_TYPE_TIMER, 0, (s->flags & 4) ? DISPATCH_TIMER_STRICT : 0, tq); break;
-		case T_READ: { int p[2]; if (pipe(p)) return -1; fcntl(p[0], F_SETFL, O_NONBLOCK); fcntl(p[1], F_SETFL, O_NONBLOCK); s->fd_r = p[0]; s->fd_w = p[1];
-			s->ds = dispatch_source_create(DISPATCH_SOURCE_TYPE_READ, (uintptr_t)p[0], 0, tq); break; }
-		case T_WRITE: { int p[2]; if (pipe(p)) return -1; fcntl(p[0], F_SETFL, O_NONBLOCK); fcntl(p[1], F_SETFL, O_NONBLOCK); fcntl(p[1], F_SETPIPE_SZ, 4096);
+		case T_READ: {
+			if (s->share) { src_t *o = &SRC[s->share - 1]; s->fd_r = o->fd_r; s->fd_w = -1; s->shared = o->shared = 1; }      // a second source on the same descriptor (same muxnote)
+			else { int p[2];
+				if (s->flags & 64) { if (socketpair(AF_UNIX, SOCK_STREAM, 0, p)) return -1; int sz = 4096; setsockopt(p[0], SOL_SOCKET, SO_SNDBUF, &sz, sizeof sz); }
+				else if (pipe(p)) return -1;
+				fcntl(p[0], F_SETFL, O_NONBLOCK); fcntl(p[1], F_SETFL, O_NONBLOCK); s->fd_r = p[0]; s->fd_w = p[1]; }
+			s->ds = dispatch_source_create(DISPATCH_SOURCE_TYPE_READ, (uintptr_t)s->fd_r, 0, tq); break; }
+		case T_WRITE: { int p[2];
+			if (s->share) { src_t *o = &SRC[s->share - 1]; s->fd_r = o->fd_r; s->fd_w = -1; s->shared = o->shared = 1;       // WRITE source on a descriptor another source monitors
+				s->ds = dispatch_source_create(DISPATCH_SOURCE_TYPE_WRITE, (uintptr_t)s->fd_r, 0, tq); break; }
+			if (pipe(p)) return -1; fcntl(p[0], F_SETFL, O_NONBLOCK); fcntl(p[1], F_SETFL, O_NONBLOCK); fcntl(p[1], F_SETPIPE_SZ, 4096);
 			s->fd_r = p[1]; s->fd_w = p[0];
 			s->ds = dispatch_source_create(DISPATCH_SOURCE_TYPE_WRITE, (uintptr_t)p[1], 0, tq); break; }
 		case T_SIGNAL: s->ds = dispatch_source_create(DISPATCH_SOURCE_TYPE_SIGNAL, (uintptr_t)signo_of(i), 0, tq); break;
